@@ -44,3 +44,41 @@ def cleanup(unique, target=None):
                         os.remove(p)
                     except OSError:
                         pass
+
+
+def build_test(crate, unique, cargo_args, timeout=1500):
+    """`cargo test --no-run` of the scratch copy into the shared target directory; returns (executable or None, files, log).
+    `files` are the artifacts of the unique package (from cargo's JSON messages) - they are what cleanup_files removes, so a
+    run leaves nothing of its own behind.  Incremental compilation is off (its caches are named by crate, not by package)."""
+    import json
+    env = dict(os.environ)
+    env['CARGO_NET_OFFLINE'] = 'true'
+    env['CARGO_TARGET_DIR'] = target_dir()
+    env['CARGO_INCREMENTAL'] = '0'
+    p = subprocess.run(['cargo', 'test', '--offline', '--no-run', '--message-format=json'] + cargo_args, cwd=crate, env=env,
+                       stdout=subprocess.PIPE, stderr=subprocess.PIPE, text=True, timeout=timeout)
+    files, exe, rendered = [], None, []
+    for ln in p.stdout.split('\n'):
+        if not ln.startswith('{'):
+            continue
+        try:
+            m = json.loads(ln)
+        except ValueError:
+            continue
+        if m.get('reason') == 'compiler-artifact' and unique in m.get('package_id', ''):
+            files += m.get('filenames', [])
+            if m.get('executable') and m.get('profile', {}).get('test'):
+                exe = m['executable']
+        elif m.get('reason') == 'compiler-message' and m.get('message', {}).get('level') == 'error':
+            rendered.append(m['message'].get('rendered', '')[:600])
+    log = '\n'.join(rendered) + '\n' + p.stderr[-1500:]
+    return exe, files, log
+
+
+def cleanup_files(files):
+    for f in files:
+        for path in (f, os.path.splitext(f)[0] + '.d'):
+            try:
+                os.remove(path)
+            except OSError:
+                pass
